@@ -122,7 +122,10 @@ def check_status_line(ck, env):
     for c in ctor:
         at = flow.node_of(c)
         idx = []
-        for a in c.args:
+        cargs = [argx(ck.repo, fi, c, i_) for i_ in range(3)]
+        if None in cargs or len(c.args) + len(c.keywords) != 3:
+            raise AnalysisError("ResponseStartLine construction of unknown shape at %s" % fi.site(c))
+        for a in cargs:
             e = flow.expand(a, at)
             wrapped = False
             if isinstance(e, ast.Call) and isinstance(e.func, ast.Name) and e.func.id == "int" and len(e.args) == 1:
